@@ -402,4 +402,20 @@ void pv_model_bind_library(void) {
         pv_mlang* L = en ? pv_lang_by_name(en) : NULL;
         if (L && !L->lib) L->lib = l;
     }
+    /* a language is its word list, not its label: what the names did not identify (a renamed language, say - no property speaks about
+     * names) is identified by content: the phrase the library encodes for a fixed seed equals the model phrase of exactly one list */
+    bool missing = false; for (int q = 0; q < pv_nlangs; ++q) if (!pv_langs[q].lib) missing = true;
+    if (missing && pv_w) {
+        pv_mseed m; memset(&m, 0, sizeof m); for (int i = 0; i < 19; ++i) m.secret[i] = (uint8_t)(0x35 + 11 * i); m.secret[18] &= 0x3f; m.birthday = 77;
+        polyseed_data* sd = pv_seed_from_model(&m);
+        char* out = malloc(POLYSEED_STR_SIZE * 2);
+        for (int i = 0; sd && i < n; ++i) {
+            const polyseed_lang* l = polyseed_get_lang(i);
+            bool known = false; for (int q = 0; q < pv_nlangs; ++q) if (pv_langs[q].lib == l) known = true;
+            if (known) continue;
+            pv_api_encode(sd, l, 0, out);
+            for (int q = 0; q < pv_nlangs; ++q) if (!pv_langs[q].lib) { char want[2048]; pv_m_encode(&m, &pv_langs[q], 0, want, sizeof want); if (!strcmp(want, out)) { pv_langs[q].lib = l; break; } }
+        }
+        free(out); if (sd) pv_api_free(sd);
+    }
 }
